@@ -38,8 +38,14 @@ T(n) ==
                                      : <<i, j>> \in {p \in (1..(n-2)) \X (1..(n-2)) : p[1] + p[2] <= n - 1} }
              ELSE {})
 Wrapped(t) == {Un("not", t), Un("some", t), Call(S("q"), t), Call(S("nofn"), t), Idx(VecE(<<t>>), PosI(0)), Idx(t, FieldI(S("a")))}
+\* chains longer than L: same-operator and alternating runs of four lazy operators, nested on the left spine (what the
+\* parser builds for `a and b and c and d`) and on the right; an else-if ladder with three conditions
+LazyK == {"and", "or"}
+Chains == {Bin(k1, Bin(k2, Bin(k1, Hole, Hole), Hole), Hole) : k1 \in LazyK, k2 \in LazyK}
+          \cup {Bin(k1, Hole, Bin(k2, Hole, Bin(k1, Hole, Hole))) : k1 \in LazyK, k2 \in LazyK}
+          \cup {If(Hole, Val(I(1)), If(Hole, Val(I(2)), If(Hole, Val(I(3)), Val(I(4)))))}
 Shapes == LET base == UNION {T(n) : n \in 1..L} IN
-          IF Wrap THEN base \cup UNION {Wrapped(t) : t \in UNION {T(n) : n \in 1..(IF L > 2 THEN 2 ELSE L)}}
+          IF Wrap THEN base \cup Chains \cup UNION {Wrapped(t) : t \in UNION {T(n) : n \in 1..(IF L > 2 THEN 2 ELSE L)}}
                        \cup {Bin("and", w, Hole) : w \in Wrapped(Hole)} \cup {Bin("eq", Hole, w) : w \in Wrapped(Hole)}
           ELSE base
 
